@@ -98,7 +98,7 @@ def generate(rng, tier, shard, nshards):
             a = int(rng.integers(1, N - 1))
             mask[a:min(N - 1, a + int(rng.integers(1, 6)))] = True
         flips = np.where(rng.random(N) < (0.2 if i % 2 else 0.0), -1.0, 1.0)
-        yield Case("nan", "nan:sampled", T=T, mask=mask, flips=flips, inplace=bool(i % 2))
+        yield Case("nan", "nan:sampled", T=T, mask=mask, flips=flips, inplace=bool(i % 2), partial=bool(i % 3 == 0))
     pats = [(N, bits) for N in range(2, 9) for bits in itertools.product([1.0, -1.0], repeat=N)]
     k = 0
     for (N, bits) in pats:
@@ -200,8 +200,14 @@ def check_nan(case, ctx):
 
     def run():
         QA = ahrs.QuaternionArray(Tf.copy())
-        QA[mask] = np.nan
-        QA.array[mask] = np.nan
+        if case.p.get("partial"):       # a missing sample may have lost only some of its components (single-channel drop-out)
+            for j in np.where(mask)[0]:
+                cols = [[0, 1, 2, 3], [1], [2, 3], [0], [3], [1, 2, 3]][int(j) % 6]
+                QA[j, cols] = np.nan
+                QA.array[j, cols] = np.nan
+        else:
+            QA[mask] = np.nan
+            QA.array[mask] = np.nan
         ret = QA.slerp_nan(inplace=inplace)
         return ret, np.array(QA.array, float)
     out = call(run)
@@ -212,7 +218,7 @@ def check_nan(case, ctx):
         ctx.ok("inplace=True returns None", ret is None, route=r)
         res = stored
     else:
-        ctx.ok("inplace=False leaves the NaN rows in the object", bool(np.isnan(stored[mask]).all()) if mask.any() else True, route=r)
+        ctx.ok("inplace=False leaves the NaN rows in the object", bool(np.isnan(stored[mask]).any(axis=1).all()) if mask.any() else True, route=r)
         res = ret
     x = as_real_array(ctx, res, T.shape, route=r, what="filled array")
     if x is None:
